@@ -195,9 +195,12 @@ func (c *CircuitBreaker) exec(s SideEffect) {
 	if s == nil {
 		return
 	}
+	// exec is called with c.m held, the goroutine below runs without it:
+	// format the breaker's state here instead of letting the logger read it later
+	desc := c.String()
 	go func() {
 		if err := s.Exec(); err != nil {
-			c.log.Error("%v side effect failure: %v", c, err)
+			c.log.Error("%v side effect failure: %v", desc, err)
 		}
 	}()
 }
